@@ -163,7 +163,8 @@ def harness_build():
     if alt:
         hdir = os.path.join(WORK, "harness-alt-" + str(zlib.crc32(alt.encode()) % 100000))
         shutil.rmtree(hdir, ignore_errors=True)
-        shutil.copytree(HARNESS, hdir)
+        excl = tuple(x for x in os.environ.get("VERIF_HARNESS_EXCLUDE", "").split(",") if x)
+        shutil.copytree(HARNESS, hdir, ignore=lambda d, names: [n for n in names if excl and n.startswith(excl)])
         gm = open(os.path.join(hdir, "go.mod")).read().replace("=> /repo", "=> " + alt)
         open(os.path.join(hdir, "go.mod"), "w").write(gm)
         shutil.copyfile(os.path.join(alt, "go.sum"), os.path.join(hdir, "go.sum"))
